@@ -43,6 +43,7 @@ class Outcome:
     trace: Any = None                                   # JSON-able, bounded
     clauses_checked: List[str] = field(default_factory=list)
     counters: Dict[str, int] = field(default_factory=dict)  # additive measurements
+    info: Dict[str, Any] = field(default_factory=dict)      # derived facts for known-finding signatures
 
     def add(self, clause: str, detail: Any) -> None:
         self.violations.append(Violation(clause, short(detail, 1500)))
